@@ -22,6 +22,7 @@ def run(rep):
             if PID in ("C02", "C03"):
                 runs.append(["burst", lib, ch, "k=%d" % (ch + 3 if ch else 6)])
     # a reply that takes long (the actor is busy with an earlier call): the caller waits, whatever the runtime and channel kind
+    runs += [["slowreply", lib, ch, "ms=400", "kind=unit"] for lib in gen_impl.LIBS for ch in (0, 2)]
     runs += [["slowreply", lib, ch, "ms=%d" % (5600 if rep.tier == "quick" else 12000)]
              for lib in (("std",) if rep.tier == "quick" else gen_impl.LIBS) for ch in ((0, 1) if rep.tier == "quick" else (0, 1, 2))]
     rt_common.impl_side(rep, PID, runs, lambda a, d: probe.oracle_mixed(d) if a[0] == "mixed" else
